@@ -91,6 +91,7 @@ fn main() {
     if prop == "C12" { stypes::run_c12(&mut sink, thorough, seed); }
     if prop == "C09" { stypes::run_c09(&mut sink, thorough, seed); }
     if prop == "C13" { stypes::run_c13(&mut sink, thorough, seed); }
+    if prop == "C10" { stypes::run_c10(&mut sink, thorough, seed); }
     sink.finish(stats);
 }
 
@@ -121,7 +122,7 @@ fn replay(sink: &mut common::Sink, toks: &[&str]) {
         "tt" | "tt3" | "pfxs" | "rfaults" => typed::replay(sink, toks),
         "f64rt" | "f32rt" | "f64pr" | "f32pr" | "f32all" => c07::replay(sink, toks),
         "rawser" | "rawnest" | "stream3" | "sdepth" | "spfx" | "raw3" => streamraw::replay(sink, toks),
-        "tstream" | "tstream3" | "tsfault" => stypes::replay(sink, toks),
+        "tstream" | "tstream3" | "tsfault" | "tspfx" => stypes::replay(sink, toks),
         _ => eprintln!("cannot replay op {}", toks[0]),
     }
 }
